@@ -12,7 +12,7 @@ EXPLANATION = 'energy step formula (exact, any length), its long-histogram form,
 def check_energy_step(ctx, sc):
     """On the implementation: per patch and order, En_{k+1}(j) = rho_{w(j)} * sum_i F'_ij e^{-m d_ij} En_k(i)
     (long histogram), total growth <= 1+eps, absorbing walls dark, uniform ratio."""
-    sc = dict(sc, samp_par=None, tables=None, S=sc['long_bins'] + 5)
+    sc = dict(sc, samp_par=None, samp_in=None, tables=None, S=sc['long_bins'] + 5)
     r = energy.build(sc)
     r.bake_geometry()
     r.init_source_energy(scenes.coords(sc['src']))
